@@ -3,6 +3,7 @@ from __future__ import annotations
 
 import math
 import os
+import re
 import shutil
 import subprocess
 import sys
@@ -44,7 +45,10 @@ RULE = ("segment tables of 0..25 rows (classes autosome / X / Y / PAR-X / PAR-Y 
         "option name -- in 40 % of the files the table looks like the OTHER sex, so the stated one must win, and with the "
         "sex left out the files may disagree, so each must be treated with the sex inferred from IT --, -i LABEL / -i '' / "
         "--label-genes / both / neither, --show in its three values or left out, --ploidy left out; the model is told "
-        "only what guess_xx infers per file. non-trivial = non-empty input; distinct by hash of the case")
+        "only what guess_xx infers per file.  CONFIDENCE LIMITS (op export_vcf_ci, 90 cases in the quick tier, 1 in 6 through "
+        "commands.parse_args): 1..12 segments with ci_left / ci_right stated per row (margin 0, 1, 0..9, anywhere in the "
+        "segment, half / a third of it, the whole segment, 1..5 outside it), every representation above; CIPOS / CIEND of "
+        "each record compared as four integers. non-trivial = non-empty input; distinct by hash of the case")
 EXHAUSTIVE = {"quick": False, "thorough": False}
 ASSUMPTIONS = [
     "ratio space: the model receives the exact value of the double 2**log2; r*t in floats is covered by the knife-edge "
@@ -60,11 +64,17 @@ ASSUMPTIONS = [
     "parameters (C01's / C15's subjects) whose argument lists are checked textually; Python's float formatting inside the "
     "INFO f-strings is a parameter",
     "vcf with confidence limits (cnarr / --cnr, or ci_left + ci_right columns): each record additionally carries "
-    "CIPOS and CIEND after the seven modelled INFO keys; the adapter checks that they are there and drops them, their "
-    "values are outside the property's text and the model",
+    "CIPOS and CIEND after the seven modelled INFO keys; op export_vcf (and the --cnr path, whose limits come from "
+    "assign_ci_start_end / by_ranges) checks that they are there and drops them; op export_vcf_ci (round 5, ci_left + "
+    "ci_right columns stated by the case) compares their four integers with Model/ExportCiExt5.lean -- the model "
+    "mirrors the code as it is (limits shifted over the rows of the table, `end - ci_right` printed unsigned), the "
+    "property's text says nothing about these two fields",
+    "export_vcf_ci: the table has at least one row (on an empty table with ci_left / ci_right pandas refuses the "
+    "shifted column: ValueError)",
 ]
 TRUSTED_EXTRA = ["harness/exprtrans.py class RowFn: the ROW-wise reading of column-wise pandas code (rules at the top of the file)",
                  "pandas boolean-mask selection, Series.replace, concat, itertuples, to_csv as modelled in Model/Export.lean",
+                 "harness/colread_c20ci.py: the COLUMN-wise reading of the confidence-limit block of segments2vcf (rules at the top of the file)",
                  "harness parsing of the VCF / BED / SEG / TSV text into fields (split on tab, ';', '=', ':')",
                  "tabio.read (tab format) on sorted finite input is the identity (checked per case by the adapter)",
                  "argparse: an option string reaches the command function as the attribute the parser declares"]
@@ -544,6 +554,12 @@ def gen_cases(rng, tier):
     for _ in range(m // 3):
         cases.append(_nexuscase(rng))
         cases.append(_malformed_vcf(rng))
+    # round 5: the confidence-limit branch of segments2vcf, values inside the model (own generator stream: the
+    # cases above and below stay what they were)
+    import random as _random
+    crng = _random.Random(f"c20ci-{tier}-{rng.getstate()[1][0]}")  # draws nothing from rng
+    for t in range({"quick": 90, "thorough": 600, "search": 150}[tier]):
+        cases.append(_cicase(crng, via="argv" if t % 6 == 5 else None, turn=t))
     # the command line: same parser and command functions in this process (cheap, so every spelling of every option
     # gets its turn) ...
     a = {"quick": 48, "thorough": 240, "search": 48}[tier]
@@ -642,7 +658,10 @@ def _seg_table(rows, log2s, has_cn, has_probes, extra=None, colorder=None, ci=Fa
     for k, (r, lg) in enumerate(zip(rows, log2s)):
         row = {"chromosome": r[0], "start": r[1], "end": r[2], "gene": r[3], "log2": lg, "probes": r[6], "cn": r[7]}
         for name in more:
-            row[name] = _extra_value(name, k, r, lg)
+            if isinstance(ci, list) and name in ("ci_left", "ci_right"):
+                row[name] = ci[k][0 if name == "ci_left" else 1]  # op export_vcf_ci: the case states the limits
+            else:
+                row[name] = _extra_value(name, k, r, lg)
         data.append(row)
     order = _order_cols(cols + more, colorder)
     return order, [[row[c] for c in order] for row in data]
@@ -676,7 +695,8 @@ def _dup_index(cls, arr, meta):
 
 def _seg_cna(i, rows, log2s, has_cn, has_probes, sid="S"):
     from cnvlib.cnary import CopyNumArray as CNA
-    cols, data = _seg_table(rows, log2s, has_cn, has_probes, i.get("extra"), i.get("colorder"), bool(i.get("ci")))
+    cols, data = _seg_table(rows, log2s, has_cn, has_probes, i.get("extra"), i.get("colorder"),
+                            i.get("ci_cols") or bool(i.get("ci")))
     meta = {"sample_id": sid}
     if i.get("sub") is not None and data:
         def junk(row, rng):
@@ -845,7 +865,7 @@ def _parse_vcf(body):
     if not lines or not lines[0].startswith("#CHROM"):
         raise HarnessAssumption("no #CHROM line")
     head = lines[0].split("\t")
-    recs = []
+    recs, ci_text = [], []
     for l in lines[1:]:
         f = l.split("\t")
         if len(f) != 10:
@@ -861,13 +881,18 @@ def _parse_vcf(body):
         recs.append([f[0], int(f[1]), f[2], f[3], f[4], f[5], f[6], keys, kv.get("SVTYPE", ""), int(kv["END"]),
                      int(kv["SVLEN"]), frac(float(kv["FOLD_CHANGE"])), frac(float(kv["FOLD_CHANGE_LOG"])),
                      int(kv["PROBES"]), f[8].split(":"), f[9].split(":")])
-    return {"sample_col": head[9], "records": recs}
+        ci_text.append([kv.get("CIPOS"), kv.get("CIEND")])
+    return {"sample_col": head[9], "records": recs, "ci_text": ci_text}
 
 
 def _strip_ci(parsed, i):
     """with a .cnr (or ci_left / ci_right columns) every record also carries CIPOS and CIEND, after the seven
     modelled keys; their values are outside the property and the model: checked for presence, then dropped"""
     want = bool(i.get("cnr")) or bool(i.get("ci"))
+    ci_text = parsed.pop("ci_text", [])
+    if i.get("ci_cols") is not None:
+        # op export_vcf_ci (Model/ExportCiExt5.lean): the four numbers of each record are compared with the model
+        parsed["ci"] = [_ci_quad(t) for t in ci_text]
     for rec in parsed["records"]:
         has = rec[7][-2:] == ["CIPOS", "CIEND"]
         if want and not has:
@@ -875,6 +900,39 @@ def _strip_ci(parsed, i):
         if has and want:
             rec[7] = rec[7][:-2]
     return parsed
+
+
+_CI_RE = re.compile(r"^\((-?\d+),(-?\d+)\)$")
+
+
+def _ci_quad(t):
+    """`CIPOS=(l,r)`, `CIEND=(l,r)` of one record as four integers; anything else is kept as text (and judged)"""
+    m = [_CI_RE.match(x or "") for x in t]
+    if not all(m):
+        return {"bad": t}
+    return [int(m[0].group(1)), int(m[0].group(2)), int(m[1].group(1)), int(m[1].group(2))]
+
+
+def _cicase(rng, via=None, turn=None):
+    """export_vcf on a table that carries ci_left / ci_right: the limits are part of the case (margins 0, small, up to
+    the whole segment, now and then outside the segment), the model states CIPOS / CIEND of every record"""
+    while True:
+        c = _segcase(rng, "export_vcf", via=via, nmax=12, turn=turn)
+        if c["in"]["rows"]:
+            break
+    i = c["in"]
+    i.pop("cnr", None)
+    i["ci"] = True
+    cols = []
+    for r in i["rows"]:
+        s, e = r[1], r[2]
+        w = max(e - s, 1)
+        lm = rng.choice([0, 0, 1, rng.randint(0, 9), rng.randrange(w), w // 2, w, -rng.randint(1, 5)])
+        rm = rng.choice([0, 0, 1, rng.randint(0, 9), rng.randrange(w), w // 3, w, -rng.randint(1, 5)])
+        cols.append([s + lm, e - rm])
+    i["ci_cols"] = cols
+    tag = c["tag"].replace("vcf-", "vcfci-", 1).replace("+cnr", "").replace("+ci", "")
+    return {"op": "export_vcf_ci", "tag": tag, "in": i}
 
 
 def _parse_bed(text):
@@ -935,7 +993,8 @@ def _run_vcf(i, tmp):
     from cnvlib import export
     if i.get("via"):
         path = os.path.join(tmp, i["seg_id"] + ".cns")
-        _write_segfile(path, i["rows"], i["log2_f"], i["has_cn"], True, i.get("extra"), i.get("colorder"), bool(i.get("ci")))
+        _write_segfile(path, i["rows"], i["log2_f"], i["has_cn"], True, i.get("extra"), i.get("colorder"),
+                       i.get("ci_cols") or bool(i.get("ci")))
         args = ["export", "vcf", path] + _cli_common(i)
         if i.get("cnr"):
             d = os.path.join(tmp, "bins")
@@ -1138,7 +1197,7 @@ def run_impl(case):
             shutil.rmtree(tmp, ignore_errors=True)
     tmp = tempfile.mkdtemp(dir="/var/tmp", prefix="c20-")
     try:
-        return {"export_bed": _run_bed, "export_vcf": _run_vcf, "export_seg": _run_seg,
+        return {"export_bed": _run_bed, "export_vcf": _run_vcf, "export_vcf_ci": _run_vcf, "export_seg": _run_seg,
                 "export_table": _run_table, "export_nexus_basic": _run_nexus}[case["op"]](i, tmp)
     finally:
         shutil.rmtree(tmp, ignore_errors=True)
@@ -1180,6 +1239,8 @@ def to_line(case, impl):
         if isinstance(impl, dict) and impl.get("__wrap__"):
             line["in"]["female"] = impl["female_eff"]  # sex not stated on the command line: the inferred one
         line["impl"] = _payload(impl)
+        if case["op"] == "export_vcf_ci" and any(isinstance(q, dict) for q in line["impl"].get("ci", [])):
+            del line["impl"]  # CIPOS / CIEND not of the form (int,int): judged as a disagreement, no spec run
     return line
 
 
@@ -1218,7 +1279,7 @@ def judge(case, impl, resp):
     spec = list(resp.get("spec") or [])
     out = resp["out"]
     disagree = []
-    if op in ("export_bed", "export_vcf"):
+    if op in ("export_bed", "export_vcf", "export_vcf_ci"):
         i = case["in"]
         if not i["has_cn"] and any(Fraction(sl) < Fraction(1, 10 ** 9) and not _exact_product(lg)
                                    for sl, lg in zip(resp["slack"], i["log2_f"])):
@@ -1239,6 +1300,14 @@ def judge(case, impl, resp):
                     if not (same and _close(b[11], a[11]) and _close(b[12], a[12])):
                         disagree.append(f"record {k}: model {a} impl {b}")
                         break
+            if op == "export_vcf_ci" and not disagree:
+                if any(isinstance(q, dict) for q in impl["ci"]):
+                    bad = next(q for q in impl["ci"] if isinstance(q, dict))
+                    disagree.append(f"CIPOS / CIEND not of the form (int,int): {bad['bad']}")
+                elif out["ci"] != impl["ci"]:
+                    k = next((k for k, (a, b) in enumerate(zip(out["ci"], impl["ci"])) if a != b), 0)
+                    disagree.append(f"record {k} ({mr[k][0]}:{mr[k][1]}-{mr[k][9]}) CIPOS/CIEND: model "
+                                    f"{out['ci'][k:k+1]} impl {impl['ci'][k:k+1]}; ci_cols {i['ci_cols']}")
     elif op == "export_seg":
         if len(out) != len(impl):
             disagree.append(f"row count model {len(out)} impl {len(impl)}")
@@ -1352,6 +1421,10 @@ def shrink(case):
             c = {"op": case["op"], "tag": "shrunk", "in": dict(i)}
             c["in"]["rows"] = i["rows"][:k] + i["rows"][k + 1:]
             c["in"]["log2_f"] = i["log2_f"][:k] + i["log2_f"][k + 1:]
+            if i.get("ci_cols") is not None:
+                if len(i["rows"]) < 2:
+                    continue
+                c["in"]["ci_cols"] = i["ci_cols"][:k] + i["ci_cols"][k + 1:]
             yield c
     elif "samples" in i:
         ss = i["samples"]
